@@ -1040,12 +1040,12 @@ func c19M2(r *core.R) {
 			if lo == nil {
 				continue
 			}
-			own := m.fetchesIn(outer.Body)
 			root := &c19Frame{fi: fi}
+			probeP, probeWhy := m.probeOf(root, outer)
 			var scans []*c19Scan
 			var odd []string
 			m.findScans(root, outer.Body, nil, 0, &scans, &odd)
-			if len(own) == 0 && len(scans) == 0 {
+			if probeP == nil && len(scans) == 0 {
 				continue // a loop over two states that fetches nothing
 			}
 			nsearch++
@@ -1054,12 +1054,13 @@ func c19M2(r *core.R) {
 			for _, o := range odd {
 				r.Unknown("scans@"+fname+" shape", outer.Pos(), "%s: not one of the accepted scan shapes (one state fetch per scan loop)", o)
 			}
-			if len(own) != 1 {
-				r.Unknown("scans@"+fname+" middle", outer.Pos(), "the binary-search loop `for %s` makes %d state fetches of its own (outside its neighbour scans); exactly one, the probe of the middle, is understood", src(fs, outer.Cond), len(own))
+			if probeP == nil {
+				r.Unknown("scans@"+fname+" middle", outer.Pos(), "the binary-search loop `for %s`: %s; understood: one fetch of the middle in the loop body, or one call of a helper that makes it", src(fs, outer.Cond), probeWhy)
 				continue
 			}
-			midArg, _ := m.isFetch(own[0])
-			midRes := m.resultVar(par, own[0])
+			midArg, _ := m.isFetch(probeP.fetch)
+			midFr := probeP.fr
+			midRes := m.resultVar(par, probeP.site)
 			outerVaried := c19AssignedIn(info, outer.Body, outer.Post)
 			stale := func(def ast.Expr, defPos token.Pos, fr *c19Frame) bool {
 				// a definition in the search function outside the loop body that reads something the loop changes
@@ -1186,7 +1187,7 @@ func c19M2(r *core.R) {
 					}
 					d := c19NewLin()
 					d.add(start, 1)
-					d.add(rs0.lin(root, midArg, 0), -1)
+					d.add(rs0.lin(midFr, midArg, 0), -1)
 					first := d.c + int64(beta)
 					switch {
 					case len(d.terms) != 0:
@@ -1417,9 +1418,12 @@ func c19M2(r *core.R) {
 					resSet := c19Copies(info, sfi.Decl.Body, map[types.Object]bool{res: true})
 					found := m.frameAtom(s.fr, m.nilAtom(resSet, false))
 					m.walkFrom(fblk, fidx, found, func(n ast.Node) bool {
-						if c19Contains(n, s.fetch.Pos()) {
-							again = n.Pos()
-							return false
+						// this probe again, or the probe of another scan living in the same function
+						for _, s2 := range scans {
+							if s2.fr.fi == sfi && s2.fr.call == s.fr.call && c19Contains(n, s2.fetch.Pos()) {
+								again = n.Pos()
+								return false
+							}
 						}
 						return !c19Overwrites(info, n, resSet)
 					})
@@ -1441,6 +1445,9 @@ func c19M2(r *core.R) {
 						foundR := m.nilAtom(rresSet, false)
 						m.walkFrom(sblk, sidx, foundR, func(n ast.Node) bool {
 							for st := range siteOf {
+								if st == probeP.site && st != s.site {
+									continue // the probe of the next iteration (it overwrites the result: the walk stops there)
+								}
 								if c19Contains(n, st.Pos()) {
 									if st != s.site || s.fr == root {
 										if st != s.site {
@@ -1460,11 +1467,63 @@ func c19M2(r *core.R) {
 					r.OK(c, s.fetch.Pos(), "with %s != nil neither this probe nor another scan is reachable again (CFG walk with the nil tests of %s decided): the scan ends on the first state found", res.Name(), res.Name())
 				}()
 			}
+			// middle: when the probe of the middle finds a state no scan runs
+			func() {
+				c := "scans@" + fname + " middle"
+				mfi := midFr.fi
+				mres := m.resultVar(parentsOf(r.P, mfi), probeP.fetch)
+				mg := m.graph(mfi)
+				mblk, midx := blockOf(mg.g, probeP.fetch.Pos())
+				if mres == nil || mblk == nil || midRes == nil {
+					r.Unknown(c, probeP.site.Pos(), "the result of the probe of the middle `%s` is not assigned to a variable", src(fs, probeP.fetch))
+					return
+				}
+				var hit ast.Node
+				mset := c19Copies(info, mfi.Decl.Body, map[types.Object]bool{mres: true})
+				m.walkFrom(mblk, midx, m.frameAtom(midFr, m.nilAtom(mset, false)), func(n ast.Node) bool {
+					for _, s2 := range scans {
+						if s2.fr.fi == mfi && c19Contains(n, s2.fetch.Pos()) && hit == nil {
+							hit = n
+						}
+					}
+					return hit == nil && !c19Overwrites(info, n, mset)
+				})
+				if hit == nil && midFr != root {
+					// in the search function: the helper's result, when a state, is not followed by a scan
+					rg := m.graph(fi)
+					if sblk, sidx := blockOf(rg.g, probeP.site.Pos()); sblk != nil {
+						rset := c19Copies(info, fi.Decl.Body, map[types.Object]bool{midRes: true})
+						m.walkFrom(sblk, sidx, m.nilAtom(rset, false), func(n ast.Node) bool {
+							for st := range siteOf {
+								if st != probeP.site && c19Contains(n, st.Pos()) && hit == nil {
+									hit = n
+								}
+							}
+							return hit == nil && !c19Overwrites(info, n, rset)
+						})
+					}
+				}
+				if hit != nil {
+					r.Bad(c, hit.Pos(), "after the probe of the middle `%s` has found a state (%s != nil) the search still reaches `%s`: a neighbour scan runs although the middle exists and overwrites it", src(fs, probeP.fetch), mres.Name(), src(fs, hit))
+					return
+				}
+				r.OK(c, probeP.fetch.Pos(), "with the middle found (%s != nil) no neighbour scan is reachable before the state is classified (CFG walk with the nil tests decided)", mres.Name())
+			}()
 			// exhausted: nothing found anywhere between the bounds
 			func() {
 				c := "scans@" + fname + " exhausted"
+				if midFr != root {
+					if bad, nret := m.helperNilReturns(probeP, parentsOf(r.P, midFr.fi)); bad != nil || nret == 0 {
+						if bad == nil {
+							r.Unknown(c, probeP.site.Pos(), "no return of %s is reached when every fetch finds nothing", midFr.fi.Name())
+						} else {
+							r.Bad(c, bad.Pos(), "with every fetch of %s finding nothing it still reaches `%s`, which hands back something other than no state: the search classifies a state that was not found", midFr.fi.Name(), src(fs, bad))
+						}
+						return
+					}
+				}
 				rg := m.graph(fi)
-				oblk, oidx := blockOf(rg.g, own[0].Pos())
+				oblk, oidx := blockOf(rg.g, probeP.site.Pos())
 				head, _ := m.loopBlocks(rg.g, outer)
 				if oblk == nil || head == nil || midRes == nil {
 					r.Unknown(c, outer.Pos(), "the probe of the middle is not assigned to a variable / loop not found in the control-flow graph")
@@ -1493,7 +1552,7 @@ func c19M2(r *core.R) {
 				var exhaustedRet *ast.ReturnStmt
 				again := false
 				m.walkFrom(oblk, oidx, missing, func(n ast.Node) bool {
-					if c19Contains(n, own[0].Pos()) {
+					if c19Contains(n, probeP.site.Pos()) {
 						again = true
 						return false
 					}
